@@ -253,8 +253,11 @@ void run_visitor(const Execution &ex) {
     for (int k = 0; k < 6; ++k) deep += "/" + std::string(60, (char) ('p' + k));
     fs::create_directories(base + "/d1");
     fs::create_directories(deep);
-    fs::current_path(base);
-    std::string dirs[3] = {base, base + "/d1", deep};
+    // root=1: directory 0 (where the history starts and where Chdir(0) leads) is the file system's root, the one directory
+    // whose name ends in a separator
+    std::string dir0 = ex.cfg.num("root", 0) != 0 ? std::string("/") : base;
+    fs::current_path(dir0);
+    std::string dirs[3] = {dir0, base + "/d1", deep};
     std::vector<std::unique_ptr<tulz::DirectoryVisitor>> stack;
     int i = 0;
     for (const auto &st : ex.steps) {
